@@ -537,6 +537,12 @@ def _apply_pstate(fit, tok, par_names, defaults, cons):
         fit.limit_parameter(p1, defaults[p1] - 5.0 * abs(defaults[p1]) - 1.0, defaults[p1] + 5.0 * abs(defaults[p1]) + 1.0)
     elif tok == "limbite":  # narrow limits around the default: the free optimum lies outside
         fit.limit_parameter(p1, defaults[p1] * 0.995 - 1e-3, defaults[p1] * 1.005 + 1e-3)
+    elif tok == "unlimbite":  # narrow limits declared and removed again: the saved fit must not be limited
+        fit.limit_parameter(p1, defaults[p1] * 0.995 - 1e-3, defaults[p1] * 1.005 + 1e-3)
+        fit.unlimit_parameter(p1)
+    elif tok == "fixrel":  # fixed and released again: the saved fit must not hold the parameter fixed
+        fit.fix_parameter(p0, defaults[p0] * 1.05 + 0.02)
+        fit.release_parameter(p0)
     elif tok == "limlow":  # one-sided
         fit.limit_parameter(p0, lower=defaults[p0] - 5.0 * abs(defaults[p0]) - 1.0)
     elif tok.startswith("con-"):
